@@ -122,7 +122,7 @@ pub fn run(tier: &str) -> i32 {
     let cs = cases(nkeys);
     // `-2data`: the same data given as two files (every file must get the merged verdicts); `-dir`: the parameter files in
     // a directory that also holds files of other kinds sorting before, between and after them
-    let modes = ["plain", "structured", "stdin", "payload-plain", "payload-structured", "plain-2data", "structured-2data", "plain-dir", "structured-dir"];
+    let modes = ["plain", "structured", "stdin", "payload-plain", "payload-structured", "plain-2data", "structured-2data", "plain-dir", "structured-dir", "plain-samename", "structured-samename"];
     // baseline: the pre-merged document (any key order gives the same verdicts: checked by using both orders)
     let all: Vec<usize> = (0..nkeys).collect();
     let n = cs.len() * modes.len();
@@ -161,7 +161,7 @@ pub fn run(tier: &str) -> i32 {
         let mut argv = sv(&["validate"]);
         let mut stdin = String::new();
         match mode {
-            "plain" | "structured" | "plain-dir" | "structured-dir" => {
+            "plain" | "structured" | "plain-dir" | "structured-dir" | "plain-samename" | "structured-samename" => {
                 argv.extend(vec!["-r".into(), rp.clone(), "-d".into(), put("c17/data.json", &data_txt)]);
             }
             "plain-2data" | "structured-2data" => {
@@ -190,6 +190,10 @@ pub fn run(tier: &str) -> i32 {
             let t = obj(pk, if dup_param == Some(pi) { ov } else { None });
             if dir_mode {
                 put(&format!("c17/pd/p{}.json", pi), &t);
+            } else if mode.ends_with("-samename") {
+                // every parameter file is called params.json, each in its own directory
+                argv.push("-i".into());
+                argv.push(put(&format!("c17/q{}/params.json", pi), &t));
             } else {
                 argv.push("-i".into());
                 argv.push(put(&format!("c17/p{}.json", pi), &t));
